@@ -136,7 +136,7 @@ CONTRACTS = {
         'assumed': 'group allocation (C11: BlockOfVariables constructor and _add_variable_group are proved in variables_groups.py): '
                    'a one-dimensional block of k fresh variables raises the variable count by k and adds no clause',
         'params': {'label': 'any'},
-        'requires': ['len(ranges) == 1', 'ranges[0] >= 1'],
+        'supports': ['len(ranges) == 1'], 'requires': ['ranges[0] >= 1'],
         'modifies': ['self._numvar'],
         'ensures': ['self._numvar == old(self._numvar) + ranges[0]'],
     },
